@@ -185,11 +185,27 @@ PROG_DECLS = [
     (dict(x=(-3, 2), w=(-4, -1), y=(0, 5)), ['y']),
     (dict(a='bool', x=(-2, 1), y=(0, 3), b='bool'), ['y', 'b']),
     (dict(x=(0, 2), v=(-1, 1), y=(-1, 1), z=(0, 1)), ['y', 'z']),
+    # wide inputs (more than ten bits: bit names x_10, x_11 sort before x_2 lexicographically)
+    (dict(x=(0, 2047), y=(0, 3)), ['y']),
+    (dict(x=(-1024, 1023), y=(-2, 1)), ['y']),
 ]
 
 
 def gen_action(rnd, decl, outs):
     """Relation between current values and next output values."""
+    wide = [k for k, v in decl.items() if v != 'bool' and max(abs(v[0]), abs(v[1])) > 200]
+    if wide:
+        x, y = wide[0], outs[0]
+        lo, hi = decl[x]
+        ylo, yhi = decl[y]
+
+        def thr():
+            return ('cmp', rnd.choice(['>=', '<', '<=', '>']), ('var', x, False), ('num', rnd.randint(lo, hi)))
+        t = ('bin', 'equiv', ('cmp', '=', ('var', y, True), ('num', rnd.randint(ylo, yhi))),
+             ('bin', rnd.choice(['and', 'or', 'xor']), thr(), thr()))
+        if rnd.random() < 0.5:
+            t = ('bin', 'and', t, ('cmp', '#', ('var', y, True), ('num', rnd.randint(ylo, yhi))))
+        return t
     ints = [k for k, v in decl.items() if v != 'bool']
     bools = [k for k, v in decl.items() if v == 'bool']
 
